@@ -3,7 +3,7 @@ import random
 import gens, blk, compcases as cc
 from capi import Lib, Buf
 
-THEOREMS = ["C09_fast_generic_cap", "C09_fast_extState", "C09_fast_extState_fastReset", "C09_hc_emitter_cap", "C09_hc_emitter_encoding", "C09_hc_mid_bad_sizes", "C09_hc_chain_capacity", "C09_hc_mid_capacity"]
+THEOREMS = ["C09_fast_generic_cap", "C09_fast_extState", "C09_fast_extState_fastReset", "C09_hc_emitter_cap", "C09_hc_emitter_encoding", "C09_hc_mid_bad_sizes", "C09_hc_chain_capacity", "C09_hc_opt_capacity", "C09_hc_mid_capacity"]
 CORRESPONDENCE = [cc.MID_CORR, cc.CHAIN_CORR, cc.CHAIN_SEARCH_CORR,
                   "Model.FastApi == liblz4 for every capacity tried: return value, bytes, and the model's write high-water mark <= capacity",
                   "Model.HcEmit.encodeSequence == LZ4HC_encodeSequence (static function reached by #include): return code, bytes, new op/ip/anchor, for literal and match lengths on every length-encoding boundary x every room value around both limit checks"]
@@ -15,7 +15,7 @@ RULE = ("inputs weighted to incompressible / barely compressible data, long lite
         "(0 < ret <= cap and the bytes decode to the input by the extracted specification decoder); negative / > LZ4_MAX_INPUT_SIZE sizes => 0. "
         "non-trivial = 0 < ret at a capacity below the bound, or failure at capacity >= (needed size - 3); distinct = (input, entry, parameter, capacity)")
 TRUSTED = ["reads outside the source buffer are only observed (ASan, exact-size buffers), not proved",
-           "HC levels 1-2 (LZ4MID) and 3-9 (hash chain) one-shot entry points are modelled and tied; HC levels 10-12 and streaming entry points: direct oracle only"]
+           "HC levels 1-2 (LZ4MID), 3-9 (hash chain) and 10-12 (optimal parser) one-shot entry points are modelled and tied; HC streaming entry points: direct oracle only"]
 ASSUMPTIONS = ["64-bit little-endian target"]
 
 def build(tier):
